@@ -160,6 +160,12 @@ MarkersOK(line, cols, header) == \A k \in 1..Len(cols) :
   (ColName(header, cols[k]) \in MarkedCols /\ Cell(line, cols[k]) = Rep(Blank, cols[k].w) /\ cols[k].s + cols[k].w <= Len(line))
      => line[cols[k].s + cols[k].w] = Blank
 
+\* the ACAS threat flag (BDS 3,0) is the one-character gutter after the SQWK cell: its character when known, blank when not -
+\* whatever the squawk cell holds
+ThreatOK(line, cols, header, r) == \A k \in 1..Len(cols) :
+  (ColName(header, cols[k]) = N_SQWK /\ cols[k].s + cols[k].w <= Len(line))
+     => line[cols[k].s + cols[k].w] = (IF r.thr = <<>> THEN Blank ELSE r.thr[1])
+
 (******************************** C15 *************************************)
 \* key of a row for an order letter: <<>> blank, else <<number>>; category: 8 * tc + ca
 KeyOf(letter, r) ==
